@@ -8,6 +8,7 @@
  *     erase(k), k == M_GKEY  the entry disappears AND the owned object is destroyed: the shim calls free(), so any later use of
  *                            the object is a failed pointer obligation (use-after-erase)
  *     erase(k), k != M_GKEY  no effect on the witness entry (frame)
+ *     erase(it)              same, by iterator (must be dereferenceable)
  *     emplace(k, v)          inserts only if absent (std::unordered_map::emplace)
  *   A clause proved for the unconstrained witness key holds for every key; read with M_GKEY != the operated key it is the frame
  *   "entries of other keys are untouched".
@@ -30,6 +31,10 @@ static inline V M##_it_get(M##_it it) { IORA_ASSERT(it.found, "unordered_map ite
 static inline size_t M##_erase(M *m, K k) \
 { if (k == M##_GKEY) { if (m->has) { m->has = 0; free(m->val); return 1; } return 0; } \
   return nondet_bool() ? 1 : 0; } \
+/* m.erase(iterator) */ \
+static inline void M##_erase_it(M *m, M##_it it) \
+{ IORA_ASSERT(it.found, "unordered_map::erase(iterator): dereferenceable iterator"); \
+  if (it.key == M##_GKEY) { IORA_ASSERT(m->has, "unordered_map::erase(iterator): iterator still valid"); m->has = 0; free(m->val); } } \
 static inline bool M##_emplace(M *m, K k, V v) \
 { if (k == M##_GKEY) { if (m->has) return 0; m->has = 1; m->val = v; return 1; } \
   return nondet_bool(); } \
